@@ -169,7 +169,11 @@ class Douglas(DiscriminativeModel):
         # Compute individual cut points backprop
         for i, (_, cut_points) in enumerate(self.cut_points_list_):
             axes_for_sum = tuple([1 + j for j in range(len(self.cut_points_list_)) if i != j])
-            softmax_grad = binning_backprop.sum(axes_for_sum) / self._all_binnings[i]
+            # A membership that is exactly 0 has a null gradient whatever the value of the quotient, but 0/0 = nan
+            # would contaminate the sum below: leave the quotient at 0 there.
+            summed_backprop = binning_backprop.sum(axes_for_sum)
+            softmax_grad = np.divide(summed_backprop, self._all_binnings[i], out=np.zeros_like(summed_backprop),
+                                     where=self._all_binnings[i] != 0)
 
             bin_grad = self._all_binnings[i] * (
                     softmax_grad - (self._all_binnings[i] * softmax_grad).sum(1, keepdims=True))  # Shape Nx(d+1)
